@@ -28,12 +28,16 @@ J event_to_json(const Event& e) {
             o.set("trace", e.trace);
         if (e.encode)
             o.set("encode", e.encode);
+        if (e.compile)
+            o.set("compile", e.compile);
         break;
     case OP_OFFSETS:
         o.set("pol", e.pol);
         o.set("per_method", e.per_method);
         if (e.fresh_gen)
             o.set("fresh_gen", e.fresh_gen);
+        if (e.compile)
+            o.set("compile", e.compile);
         if (e.stale)
             o.set("stale", e.stale);
         if (e.meth >= 0) {
@@ -234,6 +238,7 @@ Event event_from_json(const J& o) {
     e.encode = (int)o.geti("encode", 0);
     e.per_method = (int)o.geti("per_method", 0);
     e.fresh_gen = (int)o.geti("fresh_gen", 0);
+    e.compile = (int)o.geti("compile", 0);
     e.stale = (int)o.geti("stale", 0);
     e.ppos = (int)o.geti("ppos", 0);
     e.pdelta = o.geti("pdelta", 0);
